@@ -40,6 +40,14 @@ func main() {
 		os.Exit(debugHelpers(os.Args[2], os.Args[3], os.Args[4:]))
 	case "wk":
 		os.Exit(debugWK(os.Args[2], os.Args[3]))
+	case "gramcheck":
+		os.Exit(debugGramCheck(os.Args[2], os.Args[3:]))
+	case "gramnt":
+		os.Exit(debugGramNT(os.Args[2], os.Args[3:]))
+	case "gramrule":
+		os.Exit(debugGramRule(os.Args[2], os.Args[3:]))
+	case "gramdump":
+		os.Exit(debugGramDump(os.Args[2], os.Args[3:]))
 	case "replay":
 		os.Exit(runReplay(os.Args[2:]))
 	default:
